@@ -195,6 +195,50 @@ def run_for_property(prop: Optional[str], jobs: int = 8) -> dict:
     }
 
 
+def _fixture_one(job):
+    """(kind, id, patch path, prop) -> (kind, id, status, detail): independent seeded changes that this property's check caught when they were
+    filed must still be caught; independently written behaviour-preserving changes must leave it silent"""
+    kind, sid, patch, prop = job
+    tools = os.path.join(HERE, "tools")
+    if tools not in sys.path:
+        sys.path.insert(0, tools)
+    import matrix_par
+    ov = matrix_par.overlay_of(patch)
+    if isinstance(ov, str):
+        return kind, sid, "inapplicable", ov[:80]
+    base, _ = _baseline(prop)
+    got, err = _violations(prop, ov)
+    new = got - base
+    if kind == "seed":
+        return (kind, sid, "ok", sorted(new)[0][0]) if new else (kind, sid, "failed", f"{prop} no longer reports this change" + (f" ({err})" if err else ""))
+    return (kind, sid, "ok", "") if not new and not err else (kind, sid, "failed", f"{prop} raised {sorted(new)[:1] or err}")
+
+
+def run_fixtures_for_property(prop: str, jobs: int = 16) -> dict:
+    import glob
+    import json
+    res_file = os.path.join(HERE, "seeded", "results.json")
+    expected = {}
+    if os.path.exists(res_file):
+        with open(res_file) as fh:
+            for sid, r in json.load(fh).items():
+                if prop in r.get("fired", {}) and r["fired"][prop].get("exit") == 1:
+                    expected[sid] = True
+    work = [("seed", sid, os.path.join(HERE, "seeded", sid, "patch.diff"), prop) for sid in sorted(expected)
+            if os.path.exists(os.path.join(HERE, "seeded", sid, "patch.diff"))]
+    work += [("benign", os.path.basename(os.path.dirname(p)), p, prop) for p in sorted(glob.glob(os.path.join(HERE, "benign", "*", "patch.diff")))]
+    if not work:
+        return {"seeds": 0, "benign": 0, "failed": [], "inapplicable": []}
+    with ProcessPoolExecutor(max_workers=min(jobs, len(work))) as ex:
+        results = list(ex.map(_fixture_one, work))
+    return {
+        "seeds": sum(1 for r in results if r[0] == "seed"), "seeds_caught": sum(1 for r in results if r[0] == "seed" and r[2] == "ok"),
+        "benign": sum(1 for r in results if r[0] == "benign"), "benign_silent": sum(1 for r in results if r[0] == "benign" and r[2] == "ok"),
+        "inapplicable": [r[1] for r in results if r[2] == "inapplicable"],
+        "failed": [f"{r[0]} {r[1]}: {r[3]}" for r in results if r[2] == "failed"],
+    }
+
+
 if __name__ == "__main__":
     import json
     p = sys.argv[1] if len(sys.argv) > 1 else None
